@@ -30,11 +30,7 @@ Definition dec_in (v : val) : option (oracle * dreq) :=
   end.
 (* well-formed input: decodes, and the client address is a 4- or 16-byte IP (what net.TCPAddr holds in the server) *)
 Definition valid_ip (ip : bytes) : bool := Nat.eqb (length ip) 4 || Nat.eqb (length ip) 16.
-Definition wf_C56 (i : val) : bool :=
-  match dec_in i with
-  | Some (_, q) => match client_ip q with Some cip => valid_ip cip | None => true end
-  | None => false
-  end.
+Definition wf_single (q : dreq) : bool := match client_ip q with Some cip => valid_ip cip | None => true end.
 
 Definition enc_res (r : dres) : val :=
   match r with
@@ -57,19 +53,93 @@ Definition dec_res (v : val) : option dres :=
   | _ => None
   end.
 
+(* ---- further input shapes ----
+   [1 retryMax timeoutMs]      NewDnsClient(conf): output [net udpSize timeoutMs singleInflight retryMax]
+   [2 reqA reqB]               two concurrent Fetch calls (reqA, reqB in the single-request format, both GET/POST queries
+                               for the same question from different clients) against an in-process UDP upstream that
+                               answers after a delay; output [[okA replyIdA] [okB replyIdB] log], log = the messages the
+                               upstream received as [id family mask scope addr], sorted by id *)
+Definition msg_id (buf : bytes) : option Z :=
+  match buf with a :: b :: _ => Some (a * 256 + b) | _ => None end.
+Definition fwd_entry (o : oracle) (q : dreq) : option (Z * ecs) :=
+  match request_to_dns_msg o q, code_buffer q with
+  | Forwarded _ _ _ _ _ e, Some buf => match msg_id buf with Some id => Some (id, e) | None => None end
+  | _, _ => None
+  end.
+Definition enc_entry (x : Z * ecs) : val :=
+  VL [VZ (fst x); VZ (e_family (snd x)); VZ (e_mask (snd x)); VZ (e_scope (snd x)); VB (e_addr (snd x))].
+Definition s_udp : bytes := [117; 100; 112].
+Definition run_pair (o1 : oracle) (q1 : dreq) (o2 : oracle) (q2 : dreq) : val :=
+  match fwd_entry o1 q1, fwd_entry o2 q2 with
+  | Some a, Some b =>
+    VL [VL [VZ 1; VZ (fst a)]; VL [VZ 1; VZ (fst b)];
+        VL (if fst a <=? fst b then [enc_entry a; enc_entry b] else [enc_entry b; enc_entry a])]
+  | _, _ => VErr 9
+  end.
+Definition pair_wf (o1 : oracle) (q1 : dreq) (o2 : oracle) (q2 : dreq) : bool :=
+  match fwd_entry o1 q1, fwd_entry o2 q2 with
+  | Some a, Some b => negb (fst a =? fst b)
+  | _, _ => false
+  end.
+(* THE PROPERTY for concurrent queries: each client's own message (its ID) reaches the upstream with the option for
+   THAT client's address, exactly two messages are sent, and each client gets the reply to its own message *)
+Definition log_has (cip : bytes) (id : Z) (log : list val) : bool :=
+  existsb (fun v => match v with
+                    | VL [VZ i; VZ f; VZ m; VZ s; VB a] => (i =? id) && ecs_matches cip (mkEcs f m s a)
+                    | _ => false end) log.
+Definition prop_pair (q1 q2 : dreq) (o : val) : bool :=
+  match o, client_ip q1, client_ip q2, code_buffer q1, code_buffer q2 with
+  | VL [VL [VZ 1; VZ r1]; VL [VZ 1; VZ r2]; VL log], Some c1, Some c2, Some b1, Some b2 =>
+    match msg_id b1, msg_id b2 with
+    | Some i1, Some i2 =>
+      (r1 =? i1) && (r2 =? i2) && (Z.of_nat (length log) =? 2) && log_has c1 i1 log && log_has c2 i2 log
+    | _, _ => false
+    end
+  | _, _, _, _, _ => false
+  end.
+(* NewDnsClient: plain UDP without coalescing of concurrent identical questions *)
+Definition prop_conf (o : val) : bool :=
+  match o with
+  | VL [VB net; VZ _; VZ _; VZ single; VZ _] => bytes_eqb net s_udp && (single =? 0)
+  | _ => false
+  end.
+
+Inductive dinput :=
+| DSingle (o : oracle) (q : dreq)
+| DConf (retry timeout : Z)
+| DPair (o1 : oracle) (q1 : dreq) (o2 : oracle) (q2 : dreq).
+Definition dec_any (v : val) : option dinput :=
+  match v with
+  | VL [VZ 1; VZ r; VZ t] => Some (DConf r t)
+  | VL [VZ 2; a; b] =>
+    match dec_in a, dec_in b with Some (o1, q1), Some (o2, q2) => Some (DPair o1 q1 o2 q2) | _, _ => None end
+  | _ => match dec_in v with Some (o, q) => Some (DSingle o q) | None => None end
+  end.
+
+Definition wf_C56 (i : val) : bool :=
+  match dec_any i with
+  | Some (DSingle _ q) => wf_single q
+  | Some (DConf _ _) => true
+  | Some (DPair o1 q1 o2 q2) => pair_wf o1 q1 o2 q2
+  | None => false
+  end.
 Definition run_C56 (i : val) : val :=
-  match dec_in i with
-  | Some (o, q) => enc_res (request_to_dns_msg o q)
+  match dec_any i with
+  | Some (DSingle o q) => enc_res (request_to_dns_msg o q)
+  | Some (DConf r t) => VL [VB s_udp; VZ 65535; VZ t; VZ 0; VZ r]
+  | Some (DPair o1 q1 o2 q2) => run_pair o1 q1 o2 q2
   | None => VErr 0
   end.
 Definition agree_C56 (i o : val) : bool := val_eqb (run_C56 i) o.
 Definition prop_C56 (i o : val) : bool :=
-  match dec_in i, dec_res o with
-  | Some (orc, q), Some r => doh_spec orc q r
-  | _, _ => false
+  match dec_any i with
+  | Some (DSingle orc q) => match dec_res o with Some r => doh_spec orc q r | None => false end
+  | Some (DConf _ _) => prop_conf o
+  | Some (DPair _ q1 _ q2) => prop_pair q1 q2 o
+  | None => false
   end.
 Definition kf_C56 (i : val) : Z :=
-  match dec_in i with
-  | Some (o, q) => if kf_truncated o q then 1 else if kf_second_opt o q then 2 else 0
-  | None => 0
+  match dec_any i with
+  | Some (DSingle o q) => if kf_truncated o q then 1 else if kf_second_opt o q then 2 else 0
+  | _ => 0
   end.
